@@ -62,6 +62,8 @@ type runtime struct {
 	widths      []int
 	stuck       bool
 	cancelAt    int
+	lazy        bool // every other idle call delivers nothing
+	calls       int
 	started     int
 	cancel      func()
 }
@@ -99,6 +101,11 @@ func (rt *runtime) goValue(t *TShape, w *WVal, path string) any {
 }
 
 func (rt *runtime) idle() {
+	rt.calls++
+	if rt.lazy && rt.calls%2 == 1 && len(rt.outstanding) > 0 {
+		// a call that comes back without having delivered anything (Case.LazyIdle): not a round
+		return
+	}
 	rt.rounds++
 	n := len(rt.outstanding)
 	rt.widths = append(rt.widths, n)
@@ -398,7 +405,7 @@ func RunReal(c *Case) (obs *Observed, err error) {
 	}
 	ctx, cancel := context.WithCancel(context.Background())
 	defer cancel()
-	rt := &runtime{sched: c.Schedule, cancelAt: c.CancelAt, cancel: cancel}
+	rt := &runtime{sched: c.Schedule, cancelAt: c.CancelAt, cancel: cancel, lazy: c.LazyIdle}
 	obs = &Observed{}
 	var resp *graphql.Response
 	func() {
